@@ -12,6 +12,7 @@ import (
 	"sync/atomic"
 	"time"
 
+	mqttauth "github.com/mdzio/go-mqtt/auth"
 	"github.com/mdzio/go-mqtt/message"
 	"github.com/mdzio/go-mqtt/service"
 	"github.com/mdzio/go-mqtt/sessions"
@@ -115,7 +116,20 @@ type bStep struct {
 	A      bAct                `json:"a"`
 	Out    map[string][][]bPkt `json:"out"`
 	Closed map[string]bool     `json:"closed"`
+	Nsess  int                 `json:"nsess"`
 }
+
+// selective authenticator: accepts the user "good" only
+type selAuth struct{}
+
+func (selAuth) Authenticate(id string, cred interface{}) error {
+	if id == "good" {
+		return nil
+	}
+	return fmt.Errorf("rejected")
+}
+
+var selAuthOnce sync.Once
 
 // payload tags: "" empty, "B..." big (about 40 % of a 16 KiB ring: consecutive packets wrap it),
 // "M" the largest payload the property covers, anything else small. Different tags, different bytes.
@@ -275,6 +289,7 @@ type localSub struct {
 }
 
 type brokerRun struct {
+	sp     *sessions.MemProvider
 	svr    *service.Server
 	name   string
 	conns  map[string]*bConn
@@ -293,12 +308,14 @@ func newBrokerRun(auth string, maxqos int) *brokerRun {
 	service.VerifEventFn = brokerEventFn
 	name := fmt.Sprintf("verif%d", atomic.AddUint64(&brokerSeq, 1))
 	topics.Register(name, topics.NewMemProvider())
-	sessions.Register(name, sessions.NewMemProvider())
+	sp := sessions.NewMemProvider()
+	sessions.Register(name, sp)
+	selAuthOnce.Do(func() { mqttauth.Register("verifSelective", selAuth{}) })
 	topics.MaxQosAllowed = byte(maxqos)
 	if auth == "" {
 		auth = "mockSuccess"
 	}
-	r := &brokerRun{name: name, conns: map[string]*bConn{}, locals: map[string]*localSub{}, auth: auth, tmo: 3 * time.Second}
+	r := &brokerRun{sp: sp, name: name, conns: map[string]*bConn{}, locals: map[string]*localSub{}, auth: auth, tmo: 3 * time.Second}
 	r.svr = &service.Server{BufferSize: 16384, TopicsProvider: name, SessionsProvider: name, Authenticator: auth, ConnectTimeout: 2}
 	var none service.OnPublishFunc
 	r.svr.Unsubscribe("verif/none", &none) // forces the configuration (provider look-up) now
@@ -342,6 +359,9 @@ func connectBytes(a bAct) []byte {
 	if ka == 0 {
 		ka = 60
 	}
+	// every accepted client logs in as "good" (only a selective authenticator looks at it)
+	flags |= 0x80
+	tail = append(tail, lp([]byte("good"))...)
 	body := append(lp([]byte("MQTT")), 4, flags, byte(ka>>8), byte(ka))
 	return pkt(0x10, append(body, tail...))
 }
@@ -365,6 +385,10 @@ func refusedFirstPacket(kind string) []byte {
 		return ok("MQTT", 4, 0, "")
 	case "auth":
 		return ok("MQTT", 4, 2, "rk")
+	case "auth-k1-clean": // rejected login that names the client id of somebody else's session
+		return pkt(0x10, append(append(append(lp([]byte("MQTT")), 4, 0x82, 0, 60), lp([]byte("k1"))...), lp([]byte("evil"))...))
+	case "auth-k1-keep":
+		return pkt(0x10, append(append(append(lp([]byte("MQTT")), 4, 0x80, 0, 60), lp([]byte("k1"))...), lp([]byte("evil"))...))
 	case "reserved":
 		return ok("MQTT", 4, 3, "rk")
 	case "willflags":
@@ -698,6 +722,10 @@ func runBehaviour(steps []bStep, auth string, maxqos int, res *Result) *brokerMi
 			got[name] = append(got[name], l.got...)
 			l.got = nil
 			l.mu.Unlock()
+		}
+		// projection of the session store
+		if n := r.sp.Count(); n != st.Nsess {
+			return &brokerMismatch{fmt.Sprintf("%s %s: the session store holds %d sessions, specification %d", where, actDesc(a), n, st.Nsess), tagFor(a, nil, nil, a.C)}
 		}
 		// compare
 		var names []string
